@@ -753,7 +753,7 @@ func c09R4(p *Prog, r *Report) {
 			if !ok || call.Call.StaticCallee() == nil || typeName(call.Type()) != "DataRecord" || len(call.Call.Args) < 2 {
 				return
 			}
-			if call.Call.Args[0] != ssa.Value(tds.Params[0]) {
+			if resolveCell(call.Call.Args[0]) != ssa.Value(tds.Params[0]) {
 				return
 			}
 			arg := pc.Of(call.Call.Args[1])
@@ -858,7 +858,7 @@ func c09R6(p *Prog, r *Report) {
 	r.Fn(FuncName(fn))
 	var loop *RangeLoop
 	for _, l := range RangeLoops(fn) {
-		if prm, ok := l.Over.(*ssa.Parameter); ok && len(fn.Params) > 1 && prm == fn.Params[1] {
+		if prm, ok := resolveCell(l.Over).(*ssa.Parameter); ok && len(fn.Params) > 1 && prm == fn.Params[1] {
 			loop = l
 		}
 	}
